@@ -1,7 +1,7 @@
 (* C12 — property theorems (request media parsed at most once; error caching; handler glue;
    response render cache; the JSON codec round trip). *)
 From Coq Require Import ZArith NArith List Bool Arith.
-From Falcon.C12 Require Import Model Spec Proofs Json JsonProofs.
+From Falcon.C12 Require Import Model Spec Proofs Json JsonProofs ProofsUtf8.
 Import ListNotations.
 
 (* Every call answers from the first handler invocation: later calls return the same object
@@ -140,3 +140,66 @@ Example C12_json_dup_example :
   parse (print (JObj [([97%N], JInt 1); ([98%N], JInt 2); ([97%N], JInt 3)])) =
   Some (JObj [([97%N], JInt 3); ([98%N], JInt 2)]).
 Proof. vm_compute. reflexivity. Qed.
+
+(* ------------------------------------------------------------------ UTF-8 and the handler glue *)
+
+(* bytes.decode() inverts str.encode() (strict UTF-8, model of CPython's codec) *)
+Theorem C12_utf8_roundtrip : forall s b, utf8_encode s = Some b -> utf8_decode b = Some s.
+Proof. exact utf8_roundtrip. Qed.
+Print Assumptions C12_utf8_roundtrip.
+
+(* Whenever JSONHandler.serialize produces a body for a document, JSONHandler._deserialize of
+   that body is the document (dumps -> encode -> decode -> loads). *)
+Theorem C12_json_body_roundtrip : forall d body,
+  wf d -> json_serialize d = SBytes body -> json_deserialize_body body = DOk d.
+Proof. exact json_body_roundtrip. Qed.
+Print Assumptions C12_json_body_roundtrip.
+
+(* It does produce one for every document whose strings and keys are sequences of Unicode
+   scalar values: the JSON half of "any JSON-representable document round-trips". *)
+Theorem C12_json_handler_roundtrip : forall d,
+  wf d -> scalars d ->
+  exists body, json_serialize d = SBytes body /\ json_deserialize_body body = DOk d.
+Proof. exact json_handler_roundtrip. Qed.
+Print Assumptions C12_json_handler_roundtrip.
+
+(* A lone surrogate makes str.encode() raise instead (no body is produced). *)
+Theorem C12_json_serialize_surrogate_fails : forall d,
+  ~ str_scalar (print d) -> json_serialize d = SEncodeError.
+Proof. exact json_serialize_surrogate_fails. Qed.
+Print Assumptions C12_json_serialize_surrogate_fails.
+
+(* json_deserialize_body is the glue of Model.v (the one compared with the real handler)
+   instantiated with the model codecs; its outcomes are a value, not-found or malformed. *)
+Theorem C12_json_deserialize_body_glue : forall data,
+  hres_of (json_deserialize_body data) =
+  json_deserialize (match data with [] => true | _ => false end)
+                   (match utf8_decode data with Some _ => true | None => false end)
+                   (match utf8_decode data with
+                    | Some t => match parse t with Some _ => LOk | None => LValueError end
+                    | None => LValueError
+                    end).
+Proof. exact json_deserialize_body_glue. Qed.
+Print Assumptions C12_json_deserialize_body_glue.
+
+Theorem C12_json_deserialize_body_status : forall data,
+  status_class (hres_of (json_deserialize_body data)) = 200 \/
+  status_class (hres_of (json_deserialize_body data)) = 400.
+Proof. exact json_deserialize_body_status. Qed.
+Print Assumptions C12_json_deserialize_body_status.
+
+Example C12_json_body_example :
+  scalars ex_doc /\
+  json_serialize ex_doc = SBytes
+  [123; 34; 107; 92; 34; 34; 58; 32; 91; 49; 48; 48; 48; 48; 48; 48; 48; 48; 48; 48; 48; 48; 48; 48;
+   48; 48; 48; 48; 48; 48; 48; 48; 48; 48; 48; 48; 48; 48; 48; 48; 44; 32; 123; 34; 92; 110; 34; 58;
+   32; 110; 117; 108; 108; 125; 44; 32; 34; 240; 159; 152; 128; 92; 92; 92; 117; 48; 48; 48; 49; 195;
+   169; 34; 93; 44; 32; 34; 34; 58; 32; 116; 114; 117; 101; 125]%N /\
+  json_serialize (JStr [55357%N]) = SEncodeError /\
+  json_deserialize_body [91; 49; 44; 93]%N = DMalformed /\
+  json_deserialize_body [34; 237; 160; 128; 34]%N = DMalformed /\
+  json_deserialize_body [] = DNotFound.
+Proof.
+  split; [| repeat split; vm_compute; reflexivity].
+  repeat constructor.
+Qed.
